@@ -506,7 +506,10 @@ func c13SumNonTrivial(c c13Sum) bool { return len(c.Vals) >= 2 }
 // ---------------------------------------------------------------------------
 // Value generators.
 
-func c13GenValues(r *kit.Rand, n int, style int) []float64 {
+func c13GenValues(r *kit.Rand, n int, style int) []float64 { return c13GenValuesExp(r, n, style, 100) }
+
+// c13GenValuesExp: style 4 draws the scale from 10^[-maxExp,maxExp].
+func c13GenValuesExp(r *kit.Rand, n int, style int, maxExp int) []float64 {
 	out := make([]float64, n)
 	switch style {
 	case 0: // positive, distinct-ish, benchmark-like
@@ -535,7 +538,7 @@ func c13GenValues(r *kit.Rand, n int, style int) []float64 {
 			}
 		}
 	case 4: // huge or tiny magnitudes
-		sc := math.Pow(10, float64(r.Range(-100, 100)))
+		sc := math.Pow(10, float64(r.Range(-maxExp, maxExp)))
 		for i := range out {
 			out[i] = sc * (1 + 0.2*r.NormFloat64())
 		}
@@ -779,15 +782,16 @@ func c13Head(x []float64) []float64 {
 	return x
 }
 
-// c13PanicSig classifies a panic of Compare. Welch's degrees of freedom are
-// (q1+q2)^2 / (q1^2/(n1-1) + q2^2/(n2-1)) with q = variance/n; when a square
-// overflows (standard deviation above ~1e77) or the denominator underflows
-// to zero (below ~1e-81) the quotient is NaN/Inf and go-moremath's
-// incomplete beta function panics. Only that root cause gets the narrow
-// signature; any other panic keeps the generic one.
-func c13PanicSig(model int, a, b []float64) string {
-	if model != 2 || len(a) < 2 || len(b) < 2 {
-		return "panic"
+// c13DofState evaluates, independently, the float64 arithmetic of Welch's
+// degrees of freedom (q1+q2)^2 / (q1^2/(n1-1) + q2^2/(n2-1)), q = variance/n:
+// "overflow" when a square overflows to +Inf or the denominator underflows to
+// zero (quotient NaN/Inf: go-moremath's incomplete beta function then
+// panics), "subnormal" when a square is non-zero but below the smallest
+// normal float64 (gradual underflow: digits of the degrees of freedom are
+// lost), "ok" otherwise. Standard deviations above ~1e77 / below ~1e-73.
+func c13DofState(a, b []float64) string {
+	if len(a) < 2 || len(b) < 2 {
+		return "ok"
 	}
 	q := func(x []float64) float64 {
 		n := big.NewRat(int64(len(x)), 1)
@@ -808,14 +812,38 @@ func c13PanicSig(model int, a, b []float64) string {
 	}
 	q1, q2 := q(a), q(b)
 	if q1 == 0 && q2 == 0 {
-		return "panic"
+		return "ok" // zero variance is reported as an error, not computed
 	}
 	num := (q1 + q2) * (q1 + q2)
-	den := q1*q1/float64(len(a)-1) + q2*q2/float64(len(b)-1)
+	t1, t2 := q1*q1/float64(len(a)-1), q2*q2/float64(len(b)-1)
+	den := t1 + t2
 	if math.IsInf(num, 0) || math.IsInf(den, 0) || den == 0 || math.IsNaN(num/den) {
+		return "overflow"
+	}
+	const minNormal = 2.2250738585072014e-308
+	for _, v := range []float64{num, q1 * q1, q2 * q2, t1, t2, den} {
+		if v != 0 && v < minNormal {
+			return "subnormal"
+		}
+	}
+	return "ok"
+}
+
+// c13PanicSig classifies a panic of Compare: only the recorded root cause
+// gets the narrow signature; any other panic keeps the generic one.
+func c13PanicSig(model int, a, b []float64) string {
+	if model == 2 && c13DofState(a, b) == "overflow" {
 		return "normal-compare-dof-overflow"
 	}
 	return "panic"
+}
+
+// c13ScaleSig classifies a scale dependence of P between (a,b) and (a2,b2).
+func c13ScaleSig(model int, a, b, a2, b2 []float64) string {
+	if model == 2 && (c13DofState(a, b) == "subnormal" || c13DofState(a2, b2) == "subnormal") {
+		return "normal-compare-dof-subnormal"
+	}
+	return "p-scale-dependent"
 }
 
 func c13MinP(n1, n2 int) float64 { // smallest achievable two-sided p
@@ -915,7 +943,7 @@ func c13CheckCompare(c c13Cmp) *kit.Fail {
 		if c13RankPreserving(append(c13Copy(c.A), c.B...), append(c13Copy(a2), b2...)) {
 			ck, okK := compare(a2, c.Alpha, b2, alphaB)
 			if okK && !(math.Abs(ck.P-c12.P) <= c13Tol) {
-				add(kit.Failf("p-scale-dependent", "%s: P=%v, after scaling by 2^%d P=%v", desc, c12.P, c.K, ck.P))
+				add(kit.Failf(c13ScaleSig(c.Model, c.A, c.B, a2, b2), "%s: P=%v, after scaling by 2^%d P=%v (first values %v | %v)", desc, c12.P, c.K, ck.P, c13Head(c.A), c13Head(c.B)))
 			}
 			kit.Count("rescaled by 2^k", 1)
 		}
@@ -948,7 +976,7 @@ func c13CheckCompare(c c13Cmp) *kit.Fail {
 			if ok {
 				c3, ok3 := compare(a3, c.Alpha, b3, alphaB)
 				if ok3 && !(math.Abs(c3.P-c12.P) <= tol) {
-					add(kit.Failf("p-scale-dependent", "%s: P=%v, after scaling by 3 P=%v", desc, c12.P, c3.P))
+					add(kit.Failf(c13ScaleSig(c.Model, c.A, c.B, a3, b3), "%s: P=%v, after scaling by 3 P=%v (first values %v | %v)", desc, c12.P, c3.P, c13Head(c.A), c13Head(c.B)))
 				}
 				kit.Count("rescaled by 3", 1)
 			}
@@ -1063,6 +1091,8 @@ func c13GenCmp(model int, kind string) func(r *kit.Rand, i int) c13Cmp {
 			if r.Bool() {
 				n1, n2 = n2, n1
 			}
+		case "extreme":
+			n1, n2 = r.Range(2, 12), r.Range(2, 12)
 		default:
 			n1, n2 = r.Range(1, 70), r.Range(1, 70)
 			if r.Chance(0.5) {
@@ -1110,11 +1140,38 @@ func c13GenCmp(model int, kind string) func(r *kit.Rand, i int) c13Cmp {
 			}
 		default:
 			style := r.Intn(9)
-			a := c13GenValues(r, n1, style)
-			if r.Chance(0.3) {
+			maxExp := 100
+			if model == 2 {
+				// Welch's degrees of freedom square the variances: the
+				// bulk of normal-model pairs stays where that is harmless;
+				// the class compare-normal-extreme covers the rest.
+				maxExp = 30
+			}
+			if kind == "extreme" {
+				style = 4
+			}
+			a := c13GenValuesExp(r, n1, style, maxExp)
+			if kind == "extreme" {
+				// standard deviations 1e-100..1e100, dense around the two
+				// edges (~1e77 and ~1e-81) of the safe range
+				e := kit.Pick(r, []int{r.Range(-100, 100), r.Range(70, 84), -r.Range(70, 86)})
+				sc := math.Pow(10, float64(e))
+				for j := range a {
+					a[j] = sc * (1 + 0.2*r.NormFloat64())
+				}
+			}
+			if r.Chance(0.3) && kind != "extreme" {
 				style = r.Intn(9)
 			}
-			b := c13GenValues(r, n2, style)
+			b := c13GenValuesExp(r, n2, style, maxExp)
+			if kind == "extreme" && r.Chance(0.7) {
+				f := kit.Pick(r, []float64{1, 1.5, 0.5, 10, 1e-3})
+				b = c13GenValuesExp(r, n2, 0, 1)
+				m := c13MaxAbs(a)
+				for j := range b {
+					b[j] = m * f * (1 + 0.2*r.NormFloat64())
+				}
+			}
 			if r.Chance(0.5) && style != 4 {
 				d := kit.Pick(r, []float64{0.5, 1, -1, 2, 10})
 				for j := range b {
@@ -1294,24 +1351,25 @@ func TestVerifC13(t *testing.T) {
 		}
 	}
 	kit.Run(t, "C13",
-		sumClass("summary-nothing", 0, 12000, 900000, 9000),
-		sumClass("summary-exact", 1, 3000, 150000, 2500),
-		sumClass("summary-normal", 2, 4000, 200000, 3000),
-		cmpClass("compare-nothing-untied-small", 0, "untied-small", 4000, 300000, 3000),
-		cmpClass("compare-nothing-untied-medium", 0, "untied-medium", 1500, 80000, 1200),
-		cmpClass("compare-nothing-tied-small", 0, "tied-small", 3000, 200000, 2000),
-		cmpClass("compare-nothing-large", 0, "large", 1000, 60000, 800),
-		cmpClass("compare-nothing-any", 0, "any", 2000, 150000, 1200),
-		cmpClass("compare-normal", 2, "any", 3000, 200000, 2000),
-		cmpClass("compare-exact", 1, "any", 1000, 50000, 600),
-		kit.Class[c13Cmp]{Name: "compare-mixed-thresholds-nothing", Quick: 600, Thorough: 20000, Gen: mixed(0), Check: c13CheckCompare,
-			NonTrivial: c13CmpNonTrivial, MinNonTrivial: 300,
+		sumClass("summary-nothing", 0, 40000, 1800000, 30000),
+		sumClass("summary-exact", 1, 8000, 300000, 6000),
+		sumClass("summary-normal", 2, 10000, 400000, 8000),
+		cmpClass("compare-nothing-untied-small", 0, "untied-small", 12000, 600000, 9000),
+		cmpClass("compare-nothing-untied-medium", 0, "untied-medium", 4000, 160000, 3000),
+		cmpClass("compare-nothing-tied-small", 0, "tied-small", 9000, 400000, 6000),
+		cmpClass("compare-nothing-large", 0, "large", 3000, 120000, 2400),
+		cmpClass("compare-nothing-any", 0, "any", 6000, 300000, 4000),
+		cmpClass("compare-normal", 2, "any", 9000, 400000, 6000),
+		cmpClass("compare-exact", 1, "any", 2000, 100000, 1500),
+		cmpClass("compare-normal-extreme", 2, "extreme", 400, 20000, 300),
+		kit.Class[c13Cmp]{Name: "compare-mixed-thresholds-nothing", Quick: 1500, Thorough: 40000, Gen: mixed(0), Check: c13CheckCompare,
+			NonTrivial: c13CmpNonTrivial, MinNonTrivial: 1000,
 			Rule: "as compare-nothing-any but the two samples are created with different thresholds; Comparison.Alpha must be the first sample's"},
-		kit.Class[c13Cmp]{Name: "compare-mixed-thresholds-normal", Quick: 600, Thorough: 20000, Gen: mixed(2), Check: c13CheckCompare,
-			NonTrivial: c13CmpNonTrivial, MinNonTrivial: 300,
+		kit.Class[c13Cmp]{Name: "compare-mixed-thresholds-normal", Quick: 1500, Thorough: 40000, Gen: mixed(2), Check: c13CheckCompare,
+			NonTrivial: c13CmpNonTrivial, MinNonTrivial: 1000,
 			Rule: "as compare-normal but the two samples are created with different thresholds; Comparison.Alpha must be the first sample's"},
-		kit.Class[c13Fmt]{Name: "format-direct", Quick: 30000, Thorough: 2000000, Gen: c13GenFmt, Check: c13CheckFmt,
-			NonTrivial: func(c c13Fmt) bool { return true }, MinNonTrivial: 20000,
+		kit.Class[c13Fmt]{Name: "format-direct", Quick: 100000, Thorough: 4000000, Gen: c13GenFmt, Check: c13CheckFmt,
+			NonTrivial: func(c c13Fmt) bool { return true }, MinNonTrivial: 80000,
 			Rule: "hand-built Summary{Center,Lo,Hi} (zero, -0, infinite ends, ends on either side, sign mixes, 1e-100..1e100) and Comparison{P,Alpha,N1,N2} (P equal to, one ulp above and below Alpha; 0; 1) with old/new centres (zero, equal, nearly equal, opposite signs) rendered and compared with the documented formulas in big.Rat"},
 	)
 }
